@@ -186,6 +186,37 @@ func cleanup() {
 	if pdbDir != "" {
 		os.RemoveAll(pdbDir)
 	}
+	if genDB != nil {
+		genDB.Close()
+		genDB = nil
+	}
+	if genDir != "" {
+		os.RemoveAll(genDir)
+	}
+}
+
+// The generator keeps its own copy of the trie to record each block's node sets. It runs the same calls on the same
+// kind of node DB (a second PNodeDB): what the trie code does to node objects it shares between tries depends on
+// whether a DB hands out stored objects (MemoryNodeDB) or decoded copies (PNodeDB).
+var (
+	genDB  *util.PNodeDB
+	genDir string
+)
+
+func generatorDB() *util.PNodeDB {
+	if genDB == nil {
+		dir, err := os.MkdirTemp("", "c27g-")
+		if err != nil {
+			panic(err)
+		}
+		genDir = dir
+		db, err := util.NewPNodeDB(dir+"/state", dir+"/log")
+		if err != nil {
+			panic("cannot open the generator's rocksdb node DB: " + err.Error())
+		}
+		genDB = db
+	}
+	return genDB
 }
 
 // recDB is the chain's state DB: the PNodeDB, with the version argument of PruneBelowVersion observed (the version
@@ -240,7 +271,7 @@ func (ic *implCase) do(w []string) (out string) {
 			return "err"
 		}
 		c.SetMagicBlock(mb)
-		ic.sim = &trieSim{salt: w[1], base: ic.rdb, sc: c.GetStateCache()}
+		ic.sim = &trieSim{salt: w[1], base: ic.rdb, sc: statecache.NewStateCache()}
 		ic.sim.genesis(r0)
 		c.SetLatestFinalizedBlock(ic.sim.prev)
 		ic.roots = map[int64]util.Key{}
@@ -475,7 +506,7 @@ func gen(r *rand.Rand, thorough bool, i int) []string {
 		round0 = int64(r.Intn(3))
 	}
 	ops := []string{fmt.Sprintf("hist %s %d", salt, round0)}
-	sim := &trieSim{salt: salt, base: util.NewMemoryNodeDB(), sc: statecache.NewStateCache()}
+	sim := &trieSim{salt: salt, base: generatorDB(), sc: statecache.NewStateCache()}
 	sim.genesis(round0)
 	nblocks := 4 + r.Intn(26)
 	if thorough {
@@ -544,6 +575,7 @@ func gen(r *rand.Rand, thorough bool, i int) []string {
 		if err := sim.state.SaveChanges(context.Background(), sim.base, false); err != nil {
 			return append(ops, "generr save "+strings.ReplaceAll(err.Error(), " ", "_"))
 		}
+		sim.state.SetNodeDB(sim.base) // as rebaseState does for the latest finalized block
 		sim.prev, sim.blk, sim.state = sim.blk, nil, nil
 		finalized = append(finalized, rd)
 		if r.Intn(4) == 0 || bi == nblocks-1 {
@@ -588,6 +620,7 @@ func oracle(ops, outs []string) *corr.Violation {
 	}
 	var (
 		cur, lfb      int64
+		inTxn, txnDel, abortedDel bool
 		finalized     = map[int64]bool{}
 		version       int64 = -1
 		prevT         map[string]bool
@@ -607,7 +640,20 @@ func oracle(ops, outs []string) *corr.Violation {
 			finalized, version, prevT, everPersisted = map[int64]bool{}, -1, map[string]bool{}, map[string]bool{}
 		case "b":
 			cur, _ = strconv.ParseInt(w[1], 10, 64)
+			abortedDel = false
+		case "t":
+			inTxn, txnDel = true, false
+		case "d":
+			if inTxn && o == "ok" {
+				txnDel = true
+			}
+		case "a":
+			if txnDel {
+				abortedDel = true
+			}
+			inTxn = false
 		case "c":
+			inTxn = false
 			if o != "ok" {
 				return mk("merge-fails", fmt.Sprintf("op %d: MergeMPTChanges answered %q", i, o))
 			}
@@ -623,6 +669,9 @@ func oracle(ops, outs []string) *corr.Violation {
 				}
 			}
 			for h := range t {
+				if !prevT[h] && !n[h] && abortedDel {
+					return mk("aborted-delete-corrupts-pending-node", fmt.Sprintf("op %d: after a transaction that deleted a key was aborted, the state of round %d holds node %s that is neither in the previous state nor among the nodes the block will persist (its pending copy in the change collector was altered): the finalized state cannot be read back from the node DB", i, cur, h))
+				}
 				if !prevT[h] && !n[h] {
 					return mk("state-node-from-nowhere", fmt.Sprintf("op %d: node %s of the state of round %d is neither new nor in the previous state", i, h, cur))
 				}
@@ -671,6 +720,9 @@ func main() {
 			return 45
 		},
 		Fixed: [][]string{
+			// an aborted transaction that deleted a key: the sibling leaf pending in the block's change collector is altered
+			{"hist sX 4527", "b 4528", "t", "i pd v3", "i pb v1", "c", "t", "d pb", "a",
+				"fin N:464c744ec2d9,74a0d26e2596,7a89be110ea7,c458b111ff55 D:- T:464c744ec2d9,7a89be110ea7,9a5a92e0dbaa,c458b111ff55", "check 4528"},
 			// AddChange clears a pending delete of the re-created node; returning to the start node is no change
 			{"ccnew", "ccadd a b", "ccdump", "ccadd b a", "ccdump", "ccdel a", "ccadd - a", "ccdump", "ccadd - c", "ccdel c", "ccdump"},
 		},
